@@ -51,32 +51,33 @@ type Obl struct {
 func (o *Obl) Name() string { return o.Prop + "." + o.Func + "." + o.Label }
 
 type Tr struct {
-	eng      *Engine
-	top      *ssa.Function
-	topShort string
-	contract *Contract
-	decls    []string
-	defs     []string
-	facts    []string
-	declared map[string]bool
-	sorts    map[string]string // state var -> sort
-	n        int
-	obls     map[string]*Obl
-	oblOrder []string
-	init     *State
-	nalloc   int
-	used     map[string]bool // assumption log
-	errs     []string
-	uninterp map[string]bool
-	covers   []*Site
+	eng       *Engine
+	top       *ssa.Function
+	topShort  string
+	contract  *Contract
+	decls     []string
+	defs      []string
+	facts     []string
+	declared  map[string]bool
+	sorts     map[string]string // state var -> sort
+	n         int
+	obls      map[string]*Obl
+	oblOrder  []string
+	init      *State
+	nalloc    int
+	used      map[string]bool // assumption log
+	errs      []string
+	uninterp  map[string]bool
+	covers    []*Site
+	ownRefs   []string     // objects allocated during this activation (own allocations, inlined callees', adopted fresh results)
 	atMatched map[int]bool // at-call clauses of the contract that matched some call site
-	frames   int
-	sl       *slicer
-	privPkg  string
-	prop     string // property being checked ("" = all): selects which tagged callee postconditions are assumed
-	topFrame *Frame
-	topArgs  []Val
-	topBinds []Val
+	frames    int
+	sl        *slicer
+	privPkg   string
+	prop      string // property being checked ("" = all): selects which tagged callee postconditions are assumed
+	topFrame  *Frame
+	topArgs   []Val
+	topBinds  []Val
 }
 
 type allocInfo struct {
@@ -805,7 +806,15 @@ func (f *Frame) escapeWalk(ai *allocInfo, v ssa.Value, seen map[ssa.Value]bool) 
 			f.escapeWalk(ai, x, seen)
 		case *ssa.DebugRef:
 		case *ssa.Phi:
-			ai.always = true
+			// a join of straight-line alternatives holds this object or another one: its uses are uses of the object;
+			// at a loop header the object of an earlier iteration flows back in, which the iteration-aware escape
+			// reasoning does not follow
+			if _, loopHead := f.loops[x.Block().Index]; loopHead {
+				ai.always = true
+			} else {
+				f.escapeWalk(ai, x, seen)
+			}
+		case *ssa.BinOp: // comparison with nil or another reference
 		case *ssa.MakeClosure:
 			// a closure that is only deferred or called on the spot does not publish what it captures
 			private := true
@@ -1619,6 +1628,7 @@ func (f *Frame) block(b *ssa.BasicBlock) {
 			f.vals[x] = Val{K: VMap, T: ref, Typ: x.Type()}
 			if ai := f.mkmaps[x]; ai != nil {
 				ai.ref = ref
+				f.tr.ownRefs = append(f.tr.ownRefs, ref)
 				ai.locs = nil
 			}
 			f.initMap(x.Type(), ref)
@@ -1719,6 +1729,7 @@ func (f *Frame) alloc(x *ssa.Alloc) {
 	ref := sInt(int64(-tr.nalloc))
 	ai := f.allocs[x]
 	ai.ref = ref
+	tr.ownRefs = append(tr.ownRefs, ref)
 	ai.locs = nil
 	f.vals[x] = Val{K: VRef, T: ref, Typ: x.Type()}
 	// zero-initialise
